@@ -586,6 +586,18 @@ class KeyGen:
 
     def program(self):
         rng = self.rng
+        if rng.random() < 0.12:
+            # several top-level sets, plain and negated: exercises the choice of the
+            # pre-filter set among the criteria of the command
+            out = []
+            for _ in range(rng.randint(2, 4)):
+                uid = rng.random() < 0.5
+                k = ('UID' if uid else 'SEQ', gen_set(rng, self.n, self.uids, uid))
+                out.append(('NOT', k) if rng.random() < 0.45 else k)
+            if rng.random() < 0.3:
+                out.append(self.leaf())
+            rng.shuffle(out)
+            return out
         depth = rng.choice([0, 1, 2, 3, 4, 5, 6])
         n = rng.choice([1, 1, 2, 2, 3])
         return [self.key(depth if i == 0 else rng.randint(0, depth)) for i in range(n)]
@@ -781,13 +793,20 @@ class MsgView:
         return (dt.year, dt.month, dt.day)
 
     def text_payloads(self) -> list[bytes]:
+        """Octets of the message body a server has to search: the payload of every
+        text part and the header fields (name, raw value) of every nested part."""
         if self._text_payloads is None:
             res = []
-            for part in self.msg.walk():
+            for i, part in enumerate(self.msg.walk()):
                 if part.get_content_maintype() == 'text' and not part.is_multipart():
                     pl = part.get_payload(decode=False)
                     if isinstance(pl, str):
                         res.append(pl.encode('utf-8', 'surrogateescape'))
+                if i > 0:
+                    for name, value in part.raw_items():
+                        res.append(name.encode('utf-8', 'surrogateescape'))
+                        for ln in str(value).splitlines():
+                            res.append(ln.encode('utf-8', 'surrogateescape'))
             self._text_payloads = res
         return self._text_payloads
 
